@@ -496,7 +496,7 @@ def _symb(S, o):
 
 # --------------------------------------------------------------------------------------------
 class SymC:
-    __array_priority__ = 1000
+    # no __array_priority__: numpy treats SymC as an object scalar and applies ops elementwise
     __slots__ = ("S", "p", "aff", "modp")
 
     def __init__(self, S, p, aff=None, modp=None):
@@ -991,6 +991,63 @@ def arr(x, S=None):
     return out.reshape(a.shape)
 
 
+def poly_ratio(p, q):
+    """complex constant k with p == k*q (polynomials proportional over Q(i)), else None"""
+    if not q:
+        return None
+    if not p:
+        return (F(0), F(0))
+    # pick the leading monomial of q (ignoring I) and solve
+    S = CUR
+    qr, qi = P.split_complex(q)
+    pr, pi_ = P.split_complex(p)
+    base = qr if qr else qi
+    m0 = next(iter(sorted(base)))
+    # q = (qa + i qb)*m0 + ..., p = (pa + i pb)*m0 + ...  => k = (pa+i pb)/(qa+i qb)
+    qa, qb = qr.get(m0, F(0)), qi.get(m0, F(0))
+    pa, pb = pr.get(m0, F(0)), pi_.get(m0, F(0))
+    den = qa * qa + qb * qb
+    if not den:
+        return None
+    kr = (pa * qa + pb * qb) / den
+    ki = (pb * qa - pa * qb) / den
+    kq = P.mul(P.add(P.const(kr), P.scale(P.var(0), ki)), q, S.V)
+    if P.sub(kq, p):
+        return None
+    return (kr, ki)
+
+
+def sym_expm(A):
+    S = CUR
+    A = arr(A, S)
+    if A.ndim == 3:
+        return np.stack([sym_expm(a) for a in A])
+    n = A.shape[0]
+    offdiag = [A[r, c] for r in range(n) for c in range(n) if r != c]
+    if all(not x.p for x in offdiag):
+        out = np.zeros((n, n), dtype=object)
+        for k in range(n):
+            out[k, k] = A[k, k].exp()
+        return arr(out, S)
+    # A = a * Pm with Pm concrete and Pm @ Pm == I
+    a = next((x for x in A.ravel() if x.p and not x.is_const()), None)
+    if a is None:
+        import scipy.linalg
+        return arr(scipy.linalg.expm(evalf(S, A, _const_values(S))), S)
+    Pm = np.zeros((n, n), dtype=complex)
+    for r in range(n):
+        for c in range(n):
+            k = poly_ratio(A[r, c].p, a.p)
+            if k is None:
+                raise Unsupported("expm of a symbolic matrix that is not scalar*constant")
+            Pm[r, c] = complex(float(k[0]), float(k[1]))
+    if not np.allclose(Pm @ Pm, np.eye(n), atol=1e-12):
+        raise Unsupported("expm: constant factor is not an involution")
+    ea, eam = a.exp(), (-a).exp()
+    ch, sh = (ea + eam) * F(1, 2), (ea - eam) * F(1, 2)
+    return arr(np.eye(n), S) * ch + arr(Pm, S) * sh
+
+
 def matmul(A, B):
     return np.dot(A, B)
 
@@ -1162,6 +1219,26 @@ def install_shims():
             except Exception:
                 pass
         setattr(pm, nm, new)
+
+    # --- expm on symbolic matrices: diagonal, or (symbolic scalar) x (concrete involution)
+    import sys
+    pmd = sys.modules["pennylane.math.multi_dispatch"]
+    orig_expm = pmd.expm
+
+    def expm(tensor, like=None):
+        if symbolic(tensor):
+            return sym_expm(tensor)
+        return orig_expm(tensor, like=like)
+
+    for m in list(sys.modules.values()):
+        if m is None or not getattr(m, "__name__", "").startswith("pennylane"):
+            continue
+        try:
+            if m.__dict__.get("expm") is orig_expm:
+                m.__dict__["expm"] = expm
+        except Exception:
+            pass
+    pm.expm = expm
 
     # --- is_abstract switch
     orig_abs = pm.is_abstract
@@ -1483,3 +1560,53 @@ def explore(build, D=None, default_D=2, abstract=False, max_paths=32, max_refine
             if D[g.param] > 64:
                 raise Unsupported(f"granularity of {g.param} exceeds 64")
     raise Unsupported("denominator refinement did not converge")
+
+
+def at_param_zero(S, x, name):
+    """value of a SymC/array at theta_name = 0 (c=1, s=0, raw theta=0)"""
+    V = S.V
+
+    def one(v):
+        p = v.p
+        if name in S.atoms:
+            c, s = S.atoms[name]
+            p = P.subs_var(p, s, {}, V)
+            p = P.subs_var(p, c, P.ONE, V)
+        if name in V.index:
+            p = P.subs_var(p, V.index[name], {}, V)
+        return SymC(S, p)
+
+    if isinstance(x, SymC):
+        return one(x)
+    a = arr(x, S)
+    out = np.empty(a.shape, dtype=object)
+    for i, v in enumerate(a.ravel()):
+        out.ravel()[i] = one(v)
+    return out
+
+
+def embed(M, op_wires, wire_order):
+    """own re-indexing oracle: matrix of an operator with matrix M on op_wires, written in wire_order"""
+    M = np.asarray(M, dtype=object)
+    n, k = len(wire_order), len(op_wires)
+    pos = [list(wire_order).index(w) for w in op_wires]
+    rest = [q for q in range(n) if q not in pos]
+    N = 2 ** n
+    out = np.zeros((N, N), dtype=object)
+    for col in range(N):
+        cb = [(col >> (n - 1 - q)) & 1 for q in range(n)]
+        sub_in = 0
+        for q in pos:
+            sub_in = (sub_in << 1) | cb[q]
+        for sub_out in range(2 ** k):
+            v = M[sub_out, sub_in]
+            if not isinstance(v, SymC) and v == 0:
+                continue
+            rb = list(cb)
+            for t, q in enumerate(pos):
+                rb[q] = (sub_out >> (k - 1 - t)) & 1
+            row = 0
+            for b in rb:
+                row = (row << 1) | b
+            out[row, col] = v
+    return out
